@@ -1,6 +1,8 @@
 import ModbusModel.Lemmas.Write
 import ModbusModel.Lemmas.Rtu
 import ModbusModel.Lemmas.Tcp
+import ModbusModel.Lemmas.Fault
+import ModbusModel.Lemmas.ClientFraming
 /-
   C13 – Transport faults surface as transport errors, never as data.
 -/
@@ -75,5 +77,54 @@ example : ((Client.attach .rtu).call .reportServerId { reads := [.data [0, 0x11]
     = .done (.transport (.injected 1)) := by decide +kernel
 example : ((Client.attach .rtu).call .reportServerId { writes := [.accept 2, .zero] }).1
     = .done (.transport .writeZero) := by decide +kernel
+
+/-- **read_fault, every offset, every fragmentation** (TCP): the reply – any MBAP frame whose PDU
+    the decoder would accept – arrives only up to some byte offset (`q ≠ []` is missing), cut into
+    reads in any way; then the transport reports an error `kk`, or the end of the stream.  The
+    call returns the transport error `kk`, resp. a closed-connection / "bytes remaining" transport
+    error – never success built from the partial frame. -/
+theorem fault_mid_reply_tcp (c : Client) (req : Request) (t : Transport) (feeds rest : List ReadEv)
+    (fault : ReadEv) (q frame : Bytes) (hdr : TcpHeader) (pdu : Bytes) (res : ResponseResult)
+    (hk : c.kind = .tcp)
+    (hr : ∃ f, c.framed = some f ∧ f.wbuf = [] ∧ f.read.hasErrored = false ∧ f.read.eof = false)
+    (htw : t.writes = []) (htf : t.flushes = [])
+    (hreads : t.reads = feeds ++ fault :: rest) (hfeed : ∀ e ∈ feeds, e.isFeed = true)
+    (hq : q ≠ []) (hcut : dataOf feeds ++ q = tcpFrame hdr pdu)
+    (hl : pdu.length < 65535) (hd : decodeResponsePdu pdu = .ok res)
+    (henc : clientEncode .tcp (stampedHdr c) req = .ok frame) (hfne : frame ≠ []) :
+    match fault with
+    | .err kk => (c.call req t none).1 = .done (.transport kk)
+    | .eof => (c.call req t none).1 = .done (.transport .brokenPipe) ∨ (c.call req t none).1 = .done (.transport .other)
+    | _ => True :=
+  call_fault_mid_reply tcpClientFraming c req t feeds rest fault q frame hk hr htw htf hreads hfeed hq
+    (by rw [hcut]; exact ⟨hdr, pdu, res, hl, hd, rfl⟩) henc hfne
+
+/-- **read_fault, every offset, every fragmentation** (RTU) -/
+theorem fault_mid_reply_rtu (c : Client) (req : Request) (t : Transport) (feeds rest : List ReadEv)
+    (fault : ReadEv) (q frame : Bytes) (slave : UInt8) (pdu : Bytes) (res : ResponseResult)
+    (hk : c.kind = .rtu)
+    (hr : ∃ f, c.framed = some f ∧ f.wbuf = [] ∧ f.read.hasErrored = false ∧ f.read.eof = false)
+    (htw : t.writes = []) (htf : t.flushes = [])
+    (hreads : t.reads = feeds ++ fault :: rest) (hfeed : ∀ e ∈ feeds, e.isFeed = true)
+    (hq : q ≠ []) (hcut : dataOf feeds ++ q = rtuFrame slave pdu)
+    (hlen : ∀ x, responsePduLen (rtuFrame slave pdu ++ x) = .ok (some pdu.length))
+    (hd : decodeResponsePdu pdu = .ok res)
+    (henc : clientEncode .rtu (stampedHdr c) req = .ok frame) (hfne : frame ≠ []) :
+    match fault with
+    | .err kk => (c.call req t none).1 = .done (.transport kk)
+    | .eof => (c.call req t none).1 = .done (.transport .brokenPipe) ∨ (c.call req t none).1 = .done (.transport .other)
+    | _ => True :=
+  call_fault_mid_reply rtuClientFraming c req t feeds rest fault q frame hk hr htw htf hreads hfeed hq
+    (by rw [hcut]; exact ⟨slave, pdu, res, rfl, hlen, hd⟩) henc hfne
+
+-- non-vacuity: a reply cut after 9 of 11 bytes, then a read error / the end of the stream
+example :
+    ((Client.attach .tcp).call (.readHoldingRegisters 0 1)
+      { reads := [.data [0, 0, 0, 0, 0], .pending, .data [5, 255, 3, 2], .err (.injected 7)] } none).1
+      = .done (.transport (.injected 7)) := by decide +kernel
+example :
+    ((Client.attach .tcp).call (.readHoldingRegisters 0 1)
+      { reads := [.data [0, 0, 0, 0, 0], .pending, .data [5, 255, 3, 2], .eof] } none).1
+      = .done (.transport .other) := by decide +kernel
 
 end Modbus.Props.C13
